@@ -154,6 +154,11 @@ def c11(tier):
                             objective=[("integral", E("L", 1, ("x", "u", "t", "pc", "pcp", "v")))])))
         out.append(("%s-Tfree-geometric" % meth, _mk(method=meth, N=3, M=1, degree=2, T=("free", 1.0), grid=dict(kind="geometric", growth=2.0),
                                                      ode=E("f", None, ("x", "u", "t")), constraints=cons(), objective=obj())))
+        # the FreeTime guess is ANY number (t0: also negative): the horizon variables start exactly there
+        for gl, g in (("uniform", dict(kind="uniform")), ("geometric", dict(kind="geometric", growth=2.0)), ("freegrid-loct0", dict(kind="free", localize_t0=True))):
+            out.append(("%s-anyguess-%s" % (meth, gl), _mk(method=meth, N=3, M=2, degree=2, T=("free", "unknown"), t0=("free", "unknown"), grid=dict(g),
+                                                          ode=E("f", None, ("x", "u", "t")), constraints=cons(), objective=obj())))
+        out.append(("%s-negative-t0-guess" % meth, _mk(method=meth, N=2, M=1, degree=2, T=("free", 2.0), t0=("free", -0.7), ode=E("f", None, ("x", "u", "t")), constraints=cons(), objective=obj())))
         # grids with their own time variables: the horizon variable must still BE the length of the partition
         for gl, g in (("freegrid", dict(kind="free")), ("freegrid-loct0", dict(kind="free", localize_t0=True)),
                       ("uniform-locboth", dict(kind="uniform", localize_T=True, localize_t0=True)), ("geometric-locT", dict(kind="geometric", growth=2.0, localize_T=True))):
@@ -210,6 +215,9 @@ def c14(tier):
                         _mk(method=meth, N=N, M=M, degree=2, states=[1, 2], scales=dict(sc), variables={"": [1], "control": [1], "control+": [1]},
                             ode=E("f", None, ("x", "u", "t", "v", "vc", "vcp")), constraints=cons() + [Con(E("c4", 1, ("x", "vcp")), "le", 1.0)],
                             objective=[("integral", E("L", 1, ("x", "u"))), ("at_tf", E("Mf", 1, ("x",)))])))
+    # derivative scales with set_der called in another order than the states were declared
+    out.append(("DC-der-scales-reversed-set_der", _mk(method="DC", N=2, M=2, degree=2, states=[1, 2, 1], scales=dict(sc), der_order="reversed",
+                                                      ode=E("f", None, ("x", "u", "t")), constraints=cons())))
     out.append(("DC-dae-scaled", _mk(method="DC", N=2, M=1, degree=2, algebraics=[1], scales=dict(sc),
                                      ode=E("f", None, ("x", "u", "z", "t")), alg=E("g", None, ("x", "z", "u")),
                                      constraints=[Con(E("c1", 1, ("x", "u")), "le", 1.0, scale=4.0)])))
@@ -294,6 +302,10 @@ def c10(tier):
         out.append(("%s-N3-M2-after-T-guess" % meth, _mk(method=meth, N=3, M=2, degree=2, T=("free", 1.0), t0=("free", 0.0),
                                                           initial=texpr_states() + texpr_controls() + [("t0", ("unknown", "g_t0", 1, 1)), ("T", ("unknown", "g_T", 1, 1))], initial_after=2, **base)))
         out.append(("%s-N2-M1-after-arrays" % meth, _mk(method=meth, N=2, M=1, degree=2, initial=consts() + arrays(2, True), initial_after=4, **base)))
+        if meth == "DC":
+            out.append(("DC-dae-algebraic-guesses", _mk(method="DC", N=2, M=2, degree=2, algebraics=[2, 1], T=("free", 1.5), t0=("fixed", 0.5),
+                                                        ode=E("f", None, ("x", "u", "z", "t")), alg=E("g", None, ("x", "z", "u")),
+                                                        initial=[(("z", 0), ("unknown", "g_za", 2, 1)), (("z", 1), E("gzb", 1, ("t",))), (("x", 0), E("gx", 2, ("t",)))])))
         out.append(("%s-scaled-const" % meth, _mk(method=meth, N=2, M=1, degree=2, scales={"x": "unknown", "u": "unknown", "v": "unknown", "vcontrol": "unknown"}, initial=consts(), **base)))
         out.append(("%s-Tguess-texpr" % meth, _mk(method=meth, N=3, M=1, degree=2, T=("free", 1.0), t0=("free", 0.0),
                                                   initial=[("T", ("unknown", "g_T", 1, 1)), ("t0", ("unknown", "g_t0", 1, 1))] + texpr_states(), **base)))
@@ -326,8 +338,6 @@ def _c10_generated(tier):
     out = list(c10(tier))
     for i in range(NT if tier == "thorough" else NQ):
         kw = randspec.make(i)
-        if kw["algebraics"]:
-            continue                       # guesses for algebraic variables are outside the oracle
         def fac(i=i):
             kw = randspec.make(i)
             ini, after = randspec.make_initial(i, kw)
@@ -346,9 +356,23 @@ def _c13_generated(tier):
         kw = randspec.make(i)
         def fac(i=i):
             kw = randspec.make(i)
-            ini, after = randspec.make_initial(i, kw) if not kw["algebraics"] else ([], 0)
+            ini, after = randspec.make_initial(i, kw)
             return Spec(late=randspec.make_late(i, kw), initial=ini, initial_after=after, **kw)
         out.append(("R%03d-%s-history" % (i, kw["method"]), fac))
+    return out
+
+
+def _c09_generated(tier):
+    """catalogue + generated specifications with parameters; every second one gets NEW parameter values after the first
+    transcription (in-place update of the transcribed problem)"""
+    from . import randspec
+    out = list(c09(tier))
+    for i in range(NT if tier == "thorough" else NQ):
+        kw = randspec.make(i)
+        if not (kw["params"] or kw["T"][0] == "param" or kw["t0"][0] == "param"):
+            continue
+        late = dict(pvals=True) if i % 2 else None
+        out.append(("R%03d-%s%s" % (i, kw["method"], "-values-changed-after-transcription" if late else ""), (lambda i=i, late=late: Spec(late=late, **randspec.make(i)))))
     return out
 
 
@@ -359,7 +383,7 @@ FAMILIES = dict(C10=_c10_generated, C13=_c13_generated,
                 C04=_with_generated(c04, lambda kw: bool(kw["constraints"]), NQ, NT),
                 C05=_with_generated(c05, lambda kw: bool(kw["objective"]), NQ, NT),
                 C06=_with_generated(c06, lambda kw: kw["grid"] != dict(kind="uniform"), NQ, NT),
-                C09=_with_generated(c09, lambda kw: bool(kw["params"]) or kw["T"][0] == "param" or kw["t0"][0] == "param", NQ, NT),
+                C09=_c09_generated,
                 C11=_with_generated(c11, lambda kw: kw["T"][0] != "fixed" or kw["t0"][0] != "fixed", NQ, NT),
                 C14=_with_generated(c14, lambda kw: bool(kw["scales"]) or any(c.scale != 1 for c in kw["constraints"]), NQ, NT))
 
